@@ -26,6 +26,9 @@ pub struct WCase {
     pub no_serialize: bool,
     /// IR extracted leniently only (model tie already reported broken): oracles on the implementation still run
     pub lenient: bool,
+    /// the emitted token stream, and whether `sdl` holds introspection JSON
+    pub tokens: String,
+    pub as_json: bool,
 }
 
 pub struct Universe {
@@ -283,8 +286,8 @@ pub fn build_universe_with(
                 prelude.push_str(&format!("    pub fn defaults_json() -> String {{ serde_json::to_string(&serde_json::json!([{}])).unwrap() }}\n", calls.join(", ")));
             }
         }
-        codes.push(CaseCode { id, prelude, tokens, ops, enums, no_serialize });
-        cases.push(WCase { id, schema, doc, sdl, qtext, opts, modules, compiled: false, compile_errors: vec![], no_serialize, lenient });
+        codes.push(CaseCode { id, prelude, tokens: tokens.clone(), ops, enums, no_serialize });
+        cases.push(WCase { id, schema, doc, sdl, qtext, opts, modules, compiled: false, compile_errors: vec![], no_serialize, lenient, tokens, as_json });
     }
     let build = build_consumer(name, &codes, true, &[]);
     for c in cases.iter_mut() {
